@@ -145,7 +145,33 @@ def classify(f, v):
         elif c and (c.startswith("d_string_append") or c.startswith("mmd_print_") or c.startswith("print_token")
                     or c.startswith("mmd_export_")):
             emits = True
+        elif c and c in f.unit.funcs and f.unit.funcs[c] is not f:
+            # a helper of this unit the branch was extracted into: what it may emit / descend into counts for the branch
+            e2, d2 = _helper_effects(f.unit, f.unit.funcs[c], 0, set())
+            emits = emits or e2
+            descends = descends or d2
     return esc, deleg, emits, descends
+
+
+def _helper_effects(unit, h, depth, seen):
+    """(may emit, may descend) of a same-unit helper, following same-unit calls three levels."""
+    if h.name in seen or depth > 3:
+        return False, False
+    seen.add(h.name)
+    emits = descends = False
+    for n in h.calls():
+        c = n.get("callee")
+        if not c:
+            continue
+        if c.startswith("mmd_export_token_tree"):
+            descends = True
+        elif c.startswith(("d_string_append", "mmd_print_", "print_token", "mmd_export_")):
+            emits = True
+        elif c in unit.funcs:
+            e2, d2 = _helper_effects(unit, unit.funcs[c], depth + 1, seen)
+            emits = emits or e2
+            descends = descends or d2
+    return emits, descends
 
 
 def retired_before_export(P, chk, rid, tt):
@@ -338,15 +364,57 @@ SIBLING_REVIEWED = {
 # only functions that print source ranges are compared
 
 
+def _print_summary(h, depth=0, seen=None):
+    """Source-printer calls made by helper h (transitively through same-unit helpers), as (start key, length key) over h's
+    parameter names."""
+    seen = seen if seen is not None else set()
+    if h.name in seen or depth > 3:
+        return []
+    seen.add(h.name)
+    out = []
+    for c in h.calls():
+        cal = c.get("callee") or ""
+        if cal.startswith("mmd_print_source_") and len(c["c"]) >= 5:
+            out.append(tuple([resolve_key(h, a) for a in c["c"][2:5]]))
+        else:
+            g = h.unit.funcs.get(cal)
+            if g is not None and g is not h:
+                for trip in _print_summary(g, depth + 1, seen):
+                    out.append(tuple(_subst(x, g, c) for x in trip))
+    return out
+
+
+def _subst(expr_key, h, call):
+    """Replace h's parameter names in expr_key by the argument keys of `call`."""
+    import re as _re
+    m = {p[0]: key(call["c"][1 + i]) for i, p in enumerate(h.params) if 1 + i < len(call["c"])}
+    return _re.sub(r"(?<![\w>.])([A-Za-z_]\w*)\b", lambda mo: m.get(mo.group(1), mo.group(1)), expr_key)
+
+
+def _print_calls(f):
+    """(call node, source key, start key, length key) for every source-printer call in f, direct or through a same-unit
+    helper that hands its parameters on."""
+    out = []
+    for c in f.calls():
+        cal = c.get("callee") or ""
+        if cal.startswith("mmd_print_source_") and len(c["c"]) >= 5:
+            out.append((c, [c["c"][3], c["c"][4]], None))
+        else:
+            h = f.unit.funcs.get(cal)
+            if h is not None and h is not f and not cal.startswith("mmd_export_") and not cal.startswith("mmd_outline_"):
+                for trip in _print_summary(h):
+                    out.append((c, None, tuple(_subst(x, h, c) for x in trip[1:])))
+    return out
+
+
 def _range_vars(f):
     """Locals that carry the source range handed to the format's source printer (mmd_print_source_*)."""
     out = set()
-    for c in f.calls():
-        if (c.get("callee") or "").startswith("mmd_print_source_") and len(c["c"]) >= 5:
-            for a in c["c"][3:5]:
-                for y in walk(a):
-                    if y["k"] == "DeclRefExpr" and y.get("dk") == "Var":
-                        out.add(y["n"])
+    for c, args, _ in _print_calls(f):
+        for a in (args or ()):
+            for y in walk(a):
+                if y["k"] == "DeclRefExpr" and y.get("dk") == "Var":
+                    out.add(y["n"])
     return out
 
 
@@ -355,36 +423,72 @@ def _sibling_sig(f, v, dkey):
     arguments of the source-printer calls, in the blocks reachable for v (markup literals, nesting-level
     bookkeeping and helper structure are deliberately ignored: they may differ or be refactored freely)."""
     import re as _re
+    from .prog import single_assignment_locals
     blocks = edpe_blocks(f, dkey, v)
-    rv = _range_vars(f)
+    rv = _range_vars(f) - set(single_assignment_locals(f))      # hoisted once-assigned locals are substituted into the calls
+    prints = {id(c): (args, sub) for c, args, sub in _print_calls(f)}
     out = set()
+    al = _alpha_map(f)
+    norm = lambda s: _re.sub(r"(?<![\w>.])([A-Za-z_]\w*)\b", lambda mo: al.get(mo.group(1), mo.group(1)),
+                             _re.sub(r"opml|itmz", "FMT", s)).replace(" ", "")
     for n in block_nodes(f, blocks):
-        if n["k"] == "CallExpr" and (n.get("callee") or "").startswith("mmd_print_source_"):
-            out.add("print(%s)" % ",".join(_re.sub(r"opml|itmz", "FMT", resolve_key(f, a)) for a in n["c"][3:5]))
+        if n["k"] == "CallExpr" and id(n) in prints:
+            args, sub = prints[id(n)]
+            if args is not None:
+                out.add("print(%s)" % ",".join(norm(resolve_key(f, a)) for a in args))
+            else:
+                out.add("print(%s)" % ",".join(norm(x) for x in sub))
         elif n["k"] == "BinaryOperator" and n["op"] == "=" and key(n["c"][0]) in rv:
-            out.add("set %s=%s" % (key(n["c"][0]), resolve_key(f, n["c"][1])))
+            out.add("set %s=%s" % (norm(key(n["c"][0])), norm(resolve_key(f, n["c"][1]))))
         elif n["k"] == "CompoundAssignOperator" and key(n["c"][0]) in rv:
-            out.add("set %s%s%s" % (key(n["c"][0]), n["op"], resolve_key(f, n["c"][1])))
+            out.add("set %s%s%s" % (norm(key(n["c"][0])), n["op"], norm(resolve_key(f, n["c"][1]))))
     return out
+
+
+def _alpha_map(f):
+    """Local names -> a placeholder built from the declared type, parameters -> their position: renaming a variable in one
+    sibling is not a difference."""
+    m = {}
+    for i, p in enumerate(f.params):
+        m[p[0]] = "$p%d" % i
+    for x in f.walk():
+        if x["k"] == "VarDecl" and x.get("n") and x["n"] not in m:
+            m[x["n"]] = "$" + (x.get("t") or "?").replace("const ", "").replace(" ", "")
+    return m
+
+
+def _type_tests(f):
+    """Does f test a token's ->type other than through a switch (if-chains, predicate helpers)?"""
+    for n in f.walk():
+        if n["k"] == "BinaryOperator" and n["op"] in ("==", "!=") and (key(n["c"][0]).endswith("->type") or key(n["c"][1]).endswith("->type")):
+            return True
+        if n["k"] == "CallExpr" and any(key(a).endswith("->type") for a in n["c"][1:]) and n.get("callee") in f.unit.funcs:
+            return True
+    return False
 
 
 def r_sibling_outline(P, chk):
     rid = "R-SIBLING"
     chk.rule(rid, "the OPML and ITMZ outline writers (copies of one another) print the same source ranges for every token type "
-                  "(values of the range variables and arguments of the source printer, after substituting hoisted locals)")
+                  "(values of the range variables and arguments of the source printer, after substituting hoisted locals and "
+                  "printing helpers); a pair is compared only while both sides keep the same dispatch form")
     uo, ui = P.units.get("opml.c"), P.units.get("itmz.c")
     if uo is None or ui is None:
         raise AnalysisBroken("opml.c / itmz.c gone")
     tt = token_types(P)
     pairs = [(n, n.replace("opml", "itmz")) for n in sorted(uo.funcs) if "opml" in n and n.replace("opml", "itmz") in ui.funcs]
-    chk.floor(rid, len(pairs), 6, "OPML/ITMZ sibling function pairs")
     n_cells = 0
+    skipped = []
     for a, b in pairs:
         fa, fb = uo.funcs[a], ui.funcs[b]
-        dks = [key(n["c"][0]) for n in fa.walk() if n["k"] == "SwitchStmt" and key(n["c"][0]).endswith("->type")]
-        if not _range_vars(fa) and not _range_vars(fb) and not any((c.get("callee") or "").startswith("mmd_print_source_") for c in fa.calls()):
+        if not _print_calls(fa) and not _print_calls(fb):
             continue
-        if not dks:
+        dka = [key(n["c"][0]) for n in fa.walk() if n["k"] == "SwitchStmt" and key(n["c"][0]).endswith("->type")]
+        dkb = [key(n["c"][0]) for n in fb.walk() if n["k"] == "SwitchStmt" and key(n["c"][0]).endswith("->type")]
+        if not dka and not dkb:
+            if _type_tests(fa) or _type_tests(fb):
+                skipped.append("%s/%s (type dispatch no longer written as a switch on either side)" % (a, b))
+                continue
             sa, sb = _sibling_sig(fa, -1, "<none>"), _sibling_sig(fb, -1, "<none>")
             n_cells += 1
             ok = sa == sb
@@ -393,9 +497,15 @@ def r_sibling_outline(P, chk):
                 chk.violation(rid, "sibling:%s" % a, fb.where(), "%s and %s differ beyond markup literals: only in OPML %s, only in ITMZ %s" % (
                     a, b, sorted(sa - sb)[:3], sorted(sb - sa)[:3]))
             continue
-        dk = dks[0]
+        ama, amb = _alpha_map(fa), _alpha_map(fb)
+        if not dka or not dkb or ama.get(dka[0].split("->")[0], dka[0]) != amb.get(dkb[0].split("->")[0], dkb[0]) or \
+                sorted(ama.get(x, x) for x in _range_vars(fa)) != sorted(amb.get(x, x) for x in _range_vars(fb)):
+            # one sibling was restructured (different dispatch form or different locals): a clone comparison would only
+            # report the restructuring, not a difference in what is printed
+            skipped.append("%s/%s (the two no longer share dispatch form and range locals)" % (a, b))
+            continue
         for name, v in tt.items():
-            sa, sb = _sibling_sig(fa, v, dk), _sibling_sig(fb, v, dk)
+            sa, sb = _sibling_sig(fa, v, dka[0]), _sibling_sig(fb, v, dkb[0])
             n_cells += 1
             if sa == sb:
                 continue
@@ -408,7 +518,15 @@ def r_sibling_outline(P, chk):
                               name, a, b, sorted(sa - sb)[:3], sorted(sb - sa)[:3]))
     chk.obl[rid][0] += n_cells
     chk.obl[rid][1] += n_cells
-    chk.floor(rid, n_cells, 120, "function x token-type cells compared")
+    for sk in skipped:
+        note = "R-SIBLING not comparable, skipped: " + sk
+        chk.obligation(rid, note, True, nontrivial=False)
+        if note not in chk.notes:
+            chk.notes.append(note)
+    chk.analysed[rid] = {"pairs": len(pairs), "cells": n_cells, "not_comparable": skipped}
+    if not skipped:
+        chk.floor(rid, len(pairs), 6, "OPML/ITMZ sibling function pairs")
+        chk.floor(rid, n_cells, 120, "function x token-type cells compared")
 
 
 def r_linestrip(P, chk):
